@@ -196,6 +196,19 @@ CHECKS["C04"] = dict(
     note="Assumed: SQLAlchemy mapper model, injective id() with keep-alive, get_dao_class registry, user mappings inverse on their data; "
          "SQLAlchemy attribute instrumentation (back-population) not modelled.",
 )
+CHECKS["C06"] = dict(
+    category="other",
+    technique="contract-based deductive verification: dispatch and record contracts on WrappedTable / ORMatic (real ast executed on abstract classified fields; every kind of field of the grammar; string-valued records compared with the prescribed declarations) + bounded generate-import-configure-create driver",
+    text="parse_field sends every kind of field of the grammar (Type, builtin / Optional builtin / enum, reference / Optional reference to a mapped class, "
+         "custom-typed, list of builtins, list of custom-typed, list of mapped classes, reference to an unmapped class) to exactly its column / "
+         "relationship builder; the builders emit the prescribed records (names from the field, target table from the end point, Optional in the "
+         "annotation, String(255) for str, nullable FK with use_alter, association table per collection field with two DIFFERENT columns and explicit joins "
+         "for a collection of the own class); parse_fields visits every public own field once and no private one; fields drops what an ancestor maps; "
+         "table name / base / primary key / mapper args for roots, children and stand-alone classes; one table per class, parents first, alternative "
+         "mappings substituted; no set is iterated into the output. Level 'other': that the emitted text imports, configures and creates a schema is "
+         "SQLAlchemy's semantics and is decided by the bounded driver (30 / 1500 generated models x 2 orders, + determinism by text equality).",
+    note="Assumed: field classification (C17), the jinja template prints the records verbatim, SQLAlchemy / black / jinja2, deterministic topological sort.",
+)
 NOT_APPLICABLE = {
     "C05": "decided by SQLAlchemy/SQLite semantics acting on generated code; no krrood function body carries it, so no contract within reach can express it (DESIGN.md §4)",
 }
